@@ -20,7 +20,8 @@ pub fn def() -> PropDef {
                with a Vec+cursor model. Also: interruption storms of up to 5000 consecutive Interrupted results, \
                look-ahead offsets/lengths next to usize::MAX, BufReaders of 8..64 KiB capacity, one history in six \
                with calls documented to panic (caught; the state must be unchanged), and histories over 0.3..1 MB \
-               of data with look-ahead of up to 700 KB followed by advancing over most of the window. Non-trivial: the documented realign policy forced at least one \
+               of data with look-ahead of up to 700 KB followed by advancing over most of the window, and a handful of \
+               histories with 33..71 MiB of contiguous look-ahead. Non-trivial: the documented realign policy forced at least one \
                realign during the history, or the terminal event happened inside the history with further \
                operations after it. Distinct by hash of the serialised history.",
         assumptions: &[
@@ -46,6 +47,58 @@ pub fn check(h: &History, obs: &mut Obs) -> CheckResult {
         obs.nontrivial();
     }
     Ok(())
+}
+
+/// Tens of megabytes of contiguous look-ahead (beyond any "reasonable" internal cap); the data
+/// is a function of `seed`, so the case stays small.
+#[derive(serde::Serialize, serde::Deserialize, Clone, Debug, PartialEq, Eq, Hash)]
+pub struct Giant {
+    pub len: usize,
+    pub seed: u8,
+    pub chunk: Option<usize>,
+    pub ops: Vec<crate::reader_model::Op>,
+}
+
+pub fn check_giant(g: &Giant, obs: &mut Obs) -> CheckResult {
+    let mut data = Vec::with_capacity(g.len);
+    let mut x = g.seed as u32 | 1;
+    while data.len() < g.len {
+        // xorshift bytes: position-dependent, cheap
+        x ^= x << 13;
+        x ^= x >> 17;
+        x ^= x << 5;
+        data.extend_from_slice(&x.to_le_bytes());
+    }
+    data.truncate(g.len);
+    let h = History {
+        data,
+        feed: crate::source::Feed {
+            chunk: g.chunk,
+            ..crate::source::Feed::one_shot()
+        },
+        ops: g.ops.clone(),
+        consumed_before: 0,
+    };
+    obs.class("look-ahead>32MiB");
+    check(&h, obs)
+}
+
+fn giant_strategy() -> impl Strategy<Value = Giant> {
+    use crate::reader_model::Op;
+    let op = prop_oneof![
+        4 => prop_oneof![(33u32 << 20)..(36 << 20), (64u32 << 20)..(71 << 20), (1u32 << 20)..(71 << 20)].prop_map(Op::RequestAbs),
+        2 => any::<u16>().prop_map(Op::Advance),
+        1 => Just(Op::RequestMore),
+        1 => Just(Op::RequestByte),
+        1 => (0u64..(71 << 20)).prop_map(Op::RequestByteAt),
+    ];
+    (
+        (68usize << 20)..(73 << 20),
+        any::<u8>(),
+        prop_oneof![Just(None), Just(Some(1usize << 20)), Just(Some(40usize << 20))],
+        proptest::collection::vec(op, 2..7),
+    )
+        .prop_map(|(len, seed, chunk, ops)| Giant { len, seed, chunk, ops })
 }
 
 fn run(ctx: &Ctx) {
@@ -84,10 +137,17 @@ fn run(ctx: &Ctx) {
     // Look-ahead of hundreds of kilobytes over 0.3..1 MB of data.
     let n = ctx.share(ctx.tier.pick(1_600, 32_000));
     ctx.run_cases("history-huge", n, crate::reader_model::huge_history_strategy(), check);
+    // Look-ahead of 33..71 MiB in one piece over ~70 MiB of data (a handful of cases).
+    let n = ctx.share(ctx.tier.pick(16, 160));
+    ctx.run_cases("history-giant", n.min(ctx.tier.pick(1, 10)), giant_strategy(), check_giant);
 }
 
 fn replay(oracle: &str, v: &Value) -> Option<CheckResult> {
     match oracle {
+        "history-giant" => Some(match replay_from_file::<Giant>(v) {
+            Ok(g) => check_giant(&g, &mut Obs::default()),
+            Err(e) => Err(Failure::new("C02:decode", e)),
+        }),
         "history" | "history-large" | "history-huge" => Some(match replay_from_file::<History>(v) {
             Ok(h) => check(&h, &mut Obs::default()),
             Err(e) => Err(Failure::new("C02:decode", e)),
